@@ -61,7 +61,7 @@ UNITS.append(Unit('backmp11.postprocess_entry', ['C04', 'C05', 'C13'], 'backmp11
 UNITS.append(Unit('backmp11.on_entry', ['C02', 'C04', 'C05', 'C08', 'C12', 'C03', 'C13'], 'backmp11',
     [Part(SB, [], 'void on_entry ( Event const & event , Fsm & fsm )', xform=xfm(['preprocess_entry', 'm_history_on_entry_visit', 'postprocess_entry'], guards=GUARDS)), GUARD_DTOR],
     'void machine_on_entry(fsm_t* self, event_t event, fsm_t* fsm)', 'cascade_mp11.spec.h', compose='@0', file_scope=GUARD_FS, replay=['queue', 'hist', 'exc']))
-UNITS.append(Unit('backmp11.on_exit', ['C02', 'C08', 'C07', 'C03', 'C17', 'C13'], 'backmp11',     # C03 / C17: the frame - a machine being left stays marked running until stop() Part(SB, [], 'void on_exit ( Event const & event , Fsm & fsm )'),
+UNITS.append(Unit('backmp11.on_exit', ['C02', 'C08', 'C07', 'C03', 'C17', 'C13'], 'backmp11', Part(SB, [], 'void on_exit ( Event const & event , Fsm & fsm )'),
     'void machine_on_exit(fsm_t* self, event_t event, fsm_t* fsm)', 'cascade_mp11.spec.h', xform=xfm(['visit_active_exit', 'front_on_exit']), replay=['order', 'hist']))
 UNITS.append(Unit('backmp11.on_state_entry_completed', ['C10', 'C13'], 'backmp11', Part(SB, [], 'void on_state_entry_completed ( uint8_t region_id )'),
     'void on_state_entry_completed(fsm_t* self, type_t State, uint8_t region_id)', 'cascade_mp11.spec.h',
